@@ -10,8 +10,8 @@ import (
 	"github.com/klauspost/compress/zstd"
 )
 
-// vf12Compress compresses m with the given RFC 8879 algorithm (unknown algorithms: zlib bytes are sent).
-func vf12Compress(alg uint16, m []byte) []byte {
+// vfCompressCert compresses m with the given RFC 8879 algorithm (unknown algorithms: zlib bytes are sent).
+func vfCompressCert(alg uint16, m []byte) []byte {
 	var buf bytes.Buffer
 	switch alg {
 	case 2:
